@@ -48,6 +48,7 @@ struct Op
     int obj = 0;            // object slot; -1 = a fresh object just for this op
     uint64_t maxn = 1;      // maxDomainSize of the slot's object (used when the slot is empty)
     uint32_t obj_threads = 1; // constructor nThreads (0 = ambient)
+    int extension = 1;        // constructor extension (NTT/INTT only): rows >= n/extension of the input count as zero
     uint64_t n = 1;         // size (NTT/INTT/ROUNDTRIP), N (EXTEND); 0 allowed for NTT/INTT
     uint64_t n_ext = 1;     // EXTEND only
     uint64_t ncols = 1;
